@@ -201,7 +201,9 @@ def tlc_trace(module, cfg, events_path, timeout=1800, xmx="4g", consts=None):
     res["accepted"] = rc == 0 and "No error has been found" in out and "rejected" not in res
     if not res["accepted"] and "rejected" not in res:
         # evaluation error inside the trace spec: tool error
-        raise ToolError("trace validation %s on %s aborted:\n%s" % (module, events_path, out[-4000:]))
+        err = ToolError("trace validation %s on %s aborted:\n%s" % (module, events_path, out[-4000:]))
+        err.out = out
+        raise err
     if "rejected" in res:
         raise ToolError("trace %s not fully consumed: %s" % (events_path, res["rejected"]))
     return res
@@ -307,12 +309,42 @@ class Run:
         t1 = time.time()
 
         def validate(job):
+            """Trace validation of one shard.  An event whose shape the specification cannot even evaluate (a field the
+            library normally returns is missing, a value has another type) aborts TLC: that event is not explained by the
+            specification - a rejection in the sense of trace validation, not a tool error.  It is recorded as a mismatch
+            of kind trace-unexplained for its case, the case is taken out and the rest of the shard is validated."""
             sp, ep, index, chunk = job
-            return tlc_trace(module, cfg, ep, timeout=timeout, xmx=xmx)
+            cur_ep, cur_index, extra = ep, index, []
+            for attempt in range(5):
+                try:
+                    return tlc_trace(module, cfg, cur_ep, timeout=timeout, xmx=xmx), cur_index, extra
+                except ToolError as e:
+                    out = getattr(e, "out", None)
+                    at = re.findall(r"^/\\ l = (\d+)\s*$", out or "", re.M)
+                    if not at:
+                        raise
+                    L = int(at[-1])
+                    c = cur_index[L - 1] if 0 < L <= len(cur_index) else None
+                    if c is None:
+                        raise
+                    why = re.search(r"(Attempted to [^\n]*|The exception was[^\n]*\n[^\n]*|Error: [^\n]*evaluat[^\n]*)", out)
+                    extra.append((c, {"l": L, "kind": "trace-unexplained", "sig": "<<%s>>" % c.lines[0].get("case", "?"),
+                                      "expected": "an event the specification can evaluate",
+                                      "observed": (why.group(1) if why else "TLC evaluation error")[:300].replace("\n", " ")}))
+                    lines = open(cur_ep).read().splitlines()
+                    keep = [i for i in range(len(cur_index)) if cur_index[i] is not c]
+                    cur_ep = "%s.retry%d" % (ep, attempt + 1)
+                    open(cur_ep, "w").write("\n".join(lines[i] for i in keep) + "\n")
+                    cur_index = [cur_index[i] for i in keep]
+            # too many unexplained events in this shard: report those found, leave the rest of the shard unvalidated
+            self.notes.setdefault("shards_abandoned_after_unexplained_events", []).append(os.path.basename(ep))
+            return {"mismatches": [], "drifts": [], "badcases": [], "tags": [], "accepted": False, "out": ""}, cur_index, extra
         with ThreadPoolExecutor(max_workers=min(len(jobs), 14)) as ex:
             results = list(ex.map(validate, jobs))
         log("[conform] %s: %d cases, shim %.1fs, TLC %.1fs" % (tag, len(cases), t1 - t0, time.time() - t1))
-        for (sp, ep, index, chunk), r in zip(jobs, results):
+        for (sp, ep, index0, chunk), (r, index, extra) in zip(jobs, results):
+            for (c, m) in extra:
+                self.mismatches.append((c, m, prelude, epilogue))
             if r["badcases"]:
                 raise ToolError("generator/spec disagreement: %s" % r["badcases"][:3])
             self.events += len(index)
